@@ -92,6 +92,26 @@ def decide(test, at, key=u):
     return None
 
 
+class _Fold(ast.NodeTransformer):
+    """`A if <constant> else B` -> the arm taken; `not <constant>` -> constant (after substitution of a literal flag)."""
+
+    def visit_IfExp(self, node):
+        self.generic_visit(node)
+        if isinstance(node.test, ast.Constant):
+            return node.body if node.test.value else node.orelse
+        return node
+
+    def visit_UnaryOp(self, node):
+        self.generic_visit(node)
+        if isinstance(node.op, ast.Not) and isinstance(node.operand, ast.Constant):
+            return ast.Constant(value=not node.operand.value)
+        return node
+
+
+def fold_consts(e):
+    return _Fold().visit(e) if e is not None else None
+
+
 class _Repl(ast.NodeTransformer):
     def __init__(self, old, new):
         self.old, self.new = old, new
@@ -361,7 +381,7 @@ class SearchExec:
         raise Undecided(f'find_kmers: {msg}')
 
     def sub(self, e, env):
-        return subst(e, {k: v for k, v in env.items() if k not in self.nosubst})
+        return fold_consts(subst(e, {k: v for k, v in env.items() if k not in self.nosubst}))
 
     def is_search(self, node):
         return _has(node, lambda n: _is_find(n) or isinstance(n, (ast.Yield, ast.YieldFrom, ast.Return)))
@@ -376,6 +396,9 @@ class SearchExec:
                         env[n.id] = ast.Name(id=f'{n.id}@{self.nopaque}', ctx=ast.Load())
 
     def do_find(self, call, env, stmt):
+        if not isinstance(call.func.value, ast.Name) and call.args and isinstance(call.args[0], ast.Name) and u(self.sub(call.func.value, env)).endswith('.prefix'):
+            self.rep.add('K1', self.fi.site(call), 'find() is called as haystack.find(needle, start, end)', False, expected='haystack.find(<prefix>, start, end)',
+                         found=f'{u(call)}: the sequence is searched for inside the prefix', stmt='find() argument order')
         self.rep.require(isinstance(call.func.value, ast.Name), 'find_kmers: find() receiver is not a local')
         self.rep.require(1 <= len(call.args) <= 3 and not call.keywords and not any(isinstance(a, ast.Starred) for a in call.args),
                          'find_kmers: unexpected find() arguments')
@@ -433,6 +456,43 @@ class SearchExec:
                     return 'miss' if op == 'eq' else 'hit'
                 return ('wrong', f'`{u(test)}` compares the find() result with {c}, the miss value is -1')
         return 'other'
+
+    def generator_rows(self, call):
+        """`g(args)` where g is a generator of the package whose body is a straight line of `yield <row>` statements (and plain
+        assignments): the rows it produces, in order, with the parameters replaced by the arguments - a lazily produced literal table.
+        None when the call is not of that kind."""
+        if not isinstance(call, ast.Call) or call.keywords or any(isinstance(a, ast.Starred) for a in call.args):
+            return None
+        tgt = self.m.resolve_call(self.fi, call)
+        if tgt is None or not self.m.has_func(tgt):
+            return None
+        g = self.m.func(tgt)
+        ps, a = g.params(), g.node.args
+        if not isinstance(g.node, ast.FunctionDef) or g.node.decorator_list or len(ps) != len(call.args) or a.vararg or a.kwarg or a.kwonlyargs or g.cls is not None:
+            return None
+        genv = dict(zip(ps, call.args))
+        rows = []
+        for st in g.node.body:
+            if isinstance(st, ast.Pass) or (isinstance(st, ast.Expr) and isinstance(st.value, ast.Constant)):
+                continue
+            if isinstance(st, ast.Expr) and isinstance(st.value, ast.Yield) and st.value.value is not None \
+                    and not _has(st.value.value, lambda n: isinstance(n, (ast.Yield, ast.YieldFrom, ast.NamedExpr))):
+                rows.append(fold_consts(subst(st.value.value, genv)))
+            elif isinstance(st, ast.Assign) and len(st.targets) == 1 and isinstance(st.targets[0], ast.Name) \
+                    and not _has(st.value, lambda n: isinstance(n, (ast.Yield, ast.YieldFrom, ast.NamedExpr))):
+                genv[st.targets[0].id] = subst(st.value, genv)
+            else:
+                return None
+        if not rows:
+            return None
+        self.rep.functions.add(g.qualname)
+        # names inside the rows are the generator's globals: they must mean the same in find_kmers' module
+        if g.module is not self.fi.module:
+            for r in rows:
+                for n in ast.walk(r):
+                    if isinstance(n, ast.Name) and n.id not in ps and self.m.resolve(g.module, n) != self.m.resolve(self.fi.module, n):
+                        return None
+        return rows
 
     def conditional_yield(self, s):
         if isinstance(s, ast.If) and (_loop_ctrl([s]) or _has(s, lambda n: isinstance(n, ast.Return))) and any(isinstance(x, _LoopMark) for x in self.rest):
@@ -575,6 +635,9 @@ class SearchExec:
             # a loop over a literal table (one row per search) is its rows executed one after the other
             it = self.sub(s.iter, env)
             ctrl = _loop_ctrl(s.body)
+            rows = self.generator_rows(it)
+            if rows is not None:
+                it = ast.Tuple(elts=rows, ctx=ast.Load())
             if isinstance(it, (ast.Tuple, ast.List)) and not s.orelse and not ctrl and not any(isinstance(e, ast.Starred) for e in it.elts):
                 bound = {n.id for n in ast.walk(s.target) if isinstance(n, ast.Name)}
                 if any(isinstance(n, ast.Name) and n.id in bound and isinstance(n.ctx, ast.Store) for st in stmts_in(s.body) for t in assigned_targets(st) for n in ast.walk(t)):
@@ -602,7 +665,12 @@ class SearchExec:
             self.opaque(s, env)
             return None
         self.rep.require(not s.orelse, 'find_kmers: while/else in a search loop')
-        seg = dict(loop=s, abort=None, periodic=None, test_const=isinstance(s.test, ast.Constant) and bool(s.test.value), envs=[])
+        t0 = fold_consts(copy.deepcopy(s.test))
+        if isinstance(t0, ast.Constant) and not t0.value:
+            self.rep.add('K1', self.fi.site(s), 'the search loop runs (its condition is not constantly false)', False, expected='while True / while <hit>',
+                         found=f'`while {u(s.test)}`: the loop body, and with it the search, never runs', stmt=f'loop test {u(s.test)}')
+            return None
+        seg = dict(loop=s, abort=None, periodic=None, test_const=isinstance(t0, ast.Constant) and bool(t0.value), envs=[])
         bound = sorted({n.id for st in stmts_in(s.body) for t in assigned_targets(st) for n in ast.walk(t) if isinstance(n, ast.Name)}
                        | {n.target.id for n in ast.walk(s) if isinstance(n, ast.NamedExpr)})
         for it in (1, 2):
@@ -700,12 +768,24 @@ def analyse_search_loops(ctx):
         f1 = finds[0]
         rep.call_sites += len({id(e['node']) for e in finds})
         needle = f1['needle']
-        kind = None
-        if u(needle) == f'{spec}.prefix':
-            kind = 'forward'
-        elif isinstance(needle, ast.Call) and m.resolve_call(fi, needle) in ('gambit._cython.kmers.revcomp', 'gambit.seq.revcomp') \
-                and [u(a) for a in needle.args] == [f'{spec}.prefix'] and not needle.keywords:
-            kind = 'reverse'
+
+        def needle_kind(e):
+            if e is None:
+                return None
+            if u(e) == f'{spec}.prefix':
+                return 'forward'
+            if isinstance(e, ast.Call) and m.resolve_call(fi, e) in ('gambit._cython.kmers.revcomp', 'gambit.seq.revcomp') \
+                    and [u(a) for a in e.args] == [f'{spec}.prefix'] and not e.keywords:
+                return 'reverse'
+            return None
+        kind = needle_kind(needle)
+        if kind is None:
+            # the prefix sits in another argument position of find() / the haystack is the needle: a located deviation
+            misplaced = [nm for nm, e in (('start', f1['start']), ('end', f1['end'])) if needle_kind(e)]
+            recv_is_prefix = any(needle_kind(def_value(d)) for d in assigns_to(fn, f1['hay']) if def_value(d) is not None)
+            if misplaced or recv_is_prefix or u(needle) in (f1['hay'], seqp):
+                rep.add('K1', fi.site(f1['node']), 'find() is called as haystack.find(needle, start, end)', False, expected='haystack.find(<prefix>, start, end)',
+                        found=u(f1['node']) + (f': the prefix is passed as {misplaced[0]}' if misplaced else ': the prefix is the object searched in' if recv_is_prefix else ': the sequence is passed as needle'), stmt='find() argument order')
         rep.require(kind is not None, f'find_kmers: cannot classify the needle {u(needle)}')
         rep.require(kind not in result, f'find_kmers: two {kind} search loops')
         hay = f1['hay']
@@ -899,6 +979,159 @@ def short_sequence_guard(test, lenv, hay_names):
 
 
 # ------------------------------------------------------------------------------------------------ K6
+def const_bytes(m, module, e, depth=0):
+    """bytes value of a constant expression (literals, +, .lower() / .upper(), module-level names); None when not evaluable"""
+    if depth > 6:
+        return None
+    if isinstance(e, ast.Constant):
+        return e.value if isinstance(e.value, bytes) else None
+    if isinstance(e, ast.BinOp) and isinstance(e.op, ast.Add):
+        l, r = const_bytes(m, module, e.left, depth + 1), const_bytes(m, module, e.right, depth + 1)
+        return l + r if l is not None and r is not None else None
+    if isinstance(e, ast.Call) and isinstance(e.func, ast.Attribute) and e.func.attr in ('lower', 'upper') and not e.args and not e.keywords:
+        v = const_bytes(m, module, e.func.value, depth + 1)
+        return None if v is None else getattr(v, e.func.attr)()
+    if isinstance(e, (ast.Name, ast.Attribute)):
+        if isinstance(e, ast.Name) and e.id in module.assigns:
+            return const_bytes(m, module, module.assigns[e.id], depth + 1)
+        r = m.resolve(module, e)
+        if r and '.' in r:
+            mod, attr = r.rsplit('.', 1)
+            if mod in m.modules and attr in m.modules[mod].assigns:
+                return const_bytes(m, m.modules[mod], m.modules[mod].assigns[attr], depth + 1)
+    return None
+
+
+def lower_presence(m, finfo, test, var, at_stmt=None):
+    """Is `test` implied by "the byte string `var` contains a lower-case nucleotide" ?
+    -> (True, why) implied (test false => no lower-case nucleotide in var); (False, why) recognised but not implied;
+       (None, why) outside the recognised vocabulary.
+    Recognised: EXISTS x: x in A and x in B with {A, B} = {var, lower-case nucleotides} spelled with any() in either nesting order,
+    a search for a character class containing a, c, g, t, and a closed table of whole-string predicates."""
+    fn = finfo.node
+
+    def lower_container(cont):
+        cv = cont
+        if isinstance(cont, ast.Name) and at_stmt is not None:
+            d = reaching_def(fn, cont.id, at_stmt)
+            cv = def_value(d) if d not in (None, PARAM, AMBIGUOUS) else None
+            if cv is None and d is None:
+                cv = cont
+        b = const_bytes(m, finfo.module, cv) if cv is not None else None
+        return (b is not None and set(b) >= set(b'acgt')), (cv if cv is not None else cont)
+
+    def exists_common(target, it, t):
+        if not (isinstance(target, ast.Name) and isinstance(t, ast.Compare) and len(t.ops) == 1 and isinstance(t.ops[0], ast.In) and u(t.left) == target.id):
+            return None
+        a_, b_ = it, t.comparators[0]
+        for h, c in ((a_, b_), (b_, a_)):
+            if isinstance(h, ast.Name) and h.id == var:
+                okc, cv = lower_container(c)
+                return okc, f'some element common to {var} and {u(cv)}'
+        return False, f'`{u(t)}` for {target.id} in {u(it)} does not look at {var}'
+    t0 = test
+    if isinstance(t0, ast.Call) and isinstance(t0.func, ast.Name) and t0.func.id in ('any', 'all') and len(t0.args) == 1 and not t0.keywords \
+            and isinstance(t0.args[0], (ast.GeneratorExp, ast.ListComp)) and len(t0.args[0].generators) == 1 and not t0.args[0].generators[0].ifs \
+            and not t0.args[0].generators[0].is_async:
+        g = t0.args[0].generators[0]
+        r = exists_common(g.target, g.iter, t0.args[0].elt)
+        if r is None:
+            return None, f'`{u(t0)}`'
+        if t0.func.id == 'any':
+            return r[0], f'any(): {r[1]}'
+        return False, f'all(): true only when EVERY element qualifies ({r[1]}): mixed-case input is not folded'
+    # regular expression: <compiled>.search(var) / re.search(<pattern>, var)
+    if isinstance(t0, ast.Call) and isinstance(t0.func, ast.Attribute) and t0.func.attr in ('search', 'match', 'fullmatch', 'findall') and not t0.keywords:
+        pat = subject = None
+        if m.resolve(finfo.module, t0.func) in ('re.search', 're.match', 're.fullmatch', 're.findall') and len(t0.args) == 2:
+            pat, subject = t0.args
+        elif len(t0.args) == 1:
+            rx = t0.func.value
+            rv = finfo.module.assigns.get(rx.id) if isinstance(rx, ast.Name) else None
+            if rv is None and isinstance(rx, (ast.Name, ast.Attribute)):
+                r = m.resolve(finfo.module, rx)
+                if r and '.' in r and r.rsplit('.', 1)[0] in m.modules:
+                    rv = m.modules[r.rsplit('.', 1)[0]].assigns.get(r.rsplit('.', 1)[1])
+            if isinstance(rv, ast.Call) and m.resolve(finfo.module, rv.func) == 're.compile' and len(rv.args) == 1 and not rv.keywords:
+                pat, subject = rv.args[0], t0.args[0]
+        if pat is not None:
+            if u(subject) != var:
+                return False, f'`{u(t0)}` does not look at {var}'
+            pb = const_bytes(m, finfo.module, pat)
+            mo = re.fullmatch(rb'\[([A-Za-z]+)\]\+?', pb) if pb is not None else None
+            if mo is None:
+                return None, f'pattern {pb!r} of `{u(t0)}` (only a plain character class is evaluated)' if pb is not None else f'pattern of `{u(t0)}` is not a constant'
+            if t0.func.attr not in ('search', 'findall'):
+                return False, f'`{u(t0)}` with pattern {pb!r} is anchored at the start: only the first byte(s) are looked at'
+            if set(mo.group(1)) >= set(b'acgt'):
+                return True, f'search for the character class {pb!r}'
+            return False, f'character class {pb!r} does not contain all of a, c, g, t'
+    t = u(t0).replace(' ', '')
+    sufficient = {f'not{var}.isupper()', f'{var}!={var}.upper()', f'{var}.upper()!={var}', f'not({var}=={var}.upper())'}
+    insufficient = {f'{var}.islower()': 'bytes.islower() is True only when ALL cased bytes are lower case: mixed-case (soft-masked) input is not folded',
+                    f'{var}[0:1].islower()': 'looks at the first byte only', f'{var}[:1].islower()': 'looks at the first byte only',
+                    f'{var}.isalpha()': 'unrelated to case'}
+    if t in sufficient:
+        return True, f'`{u(t0)}` (true whenever any byte is lower case)'
+    if t in insufficient:
+        return False, f'`{u(t0)}`: {insufficient[t]}'
+    return None, f'`{u(t0)}`'
+
+
+def _core(t, pol):
+    """strip `not`, `is None`, `is not None` (a match object / count is truthy exactly when something was found)"""
+    while True:
+        if isinstance(t, ast.UnaryOp) and isinstance(t.op, ast.Not):
+            t, pol = t.operand, not pol
+        elif isinstance(t, ast.Compare) and len(t.ops) == 1 and is_none(t.comparators[0]) and isinstance(t.ops[0], (ast.Is, ast.IsNot)) \
+                and isinstance(t.left, ast.Call) and isinstance(t.left.func, ast.Attribute) and t.left.func.attr in ('search', 'match', 'fullmatch'):
+            t, pol = t.left, (not pol if isinstance(t.ops[0], ast.Is) else pol)
+        else:
+            return t, pol
+
+
+def fold_summary(ctx, F):
+    """Does the package function F(x) return x upper-cased whenever x contains a lower-case nucleotide (and x or x.upper() otherwise)?
+    Evaluated per path: a path returning x.upper() is fine, a path returning x itself must lie under the negation of a condition that
+    is implied by "x contains a lower-case nucleotide".  -> (ok, description); Undecided for anything else in F."""
+    rep, m = ctx.rep, ctx.model
+    ps = F.params()
+    a = F.node.args
+    rep.require(isinstance(F.node, ast.FunctionDef) and len(ps) == 1 and not (a.vararg or a.kwarg or a.kwonlyargs) and not F.node.decorator_list and F.cls is None,
+                f'{F.qualname}: not a plain one-argument function (case folding of the haystack cannot be evaluated)')
+    x = ps[0]
+    rep.functions.add(F.qualname)
+    paths, _ = enum_paths(F, F.qualname)
+    rep.require(not any(p.effects for p in paths), f'{F.qualname}: calls / loops executed for their effect are outside the evaluated vocabulary')
+    problems, notes, n_upper = [], [], 0
+    for v, at, guards, r in return_values([p for p in paths if p.kind != 'raise'], F.qualname):
+        if isinstance(v, ast.Call) and isinstance(v.func, ast.Attribute) and v.func.attr == 'upper' and not v.args and not v.keywords and u(v.func.value) == x:
+            n_upper += 1
+            continue
+        rep.require(u(v) == x, f'{F.qualname}: returns `{u(v)[:60]}` (neither the argument nor its upper-case form)')
+        verdicts = []
+        for (t, pol) in guards:
+            c, cpol = t, pol
+            ver, why = lower_presence(m, F, c, x)
+            if ver is None:
+                c, cpol = _core(t, pol)
+                ver, why = lower_presence(m, F, c, x)
+            verdicts.append((ver, cpol, why))
+        if any(ver is True and cpol is False for ver, cpol, why in verdicts):
+            notes.append(next(why for ver, cpol, why in verdicts if ver is True and cpol is False))
+            continue
+        bad = [why for ver, cpol, why in verdicts if ver is False or (ver is True and cpol is True)]
+        if bad or not verdicts:
+            problems.append('returns the sequence unchanged ' + (f'when {bad[0]}' if bad else 'unconditionally'))
+        else:
+            raise Undecided(f'{F.qualname}: the sequence is returned unchanged under {"; ".join(w for _v, _p, w in verdicts)}: outside the recognised "contains a lower-case nucleotide" conditions')
+    if problems:
+        return False, f'{F.name}: ' + '; '.join(problems)
+    if not n_upper:
+        return False, f'{F.name} never returns the upper-cased sequence'
+    return True, f'{F.name}: upper() unless no lower-case nucleotide ({notes[0] if notes else "always"})'
+
+
 def analyse_case_folding(ctx, fi, loops, spec, seqp):
     rep, m = ctx.rep, ctx.model
     fn = fi.node
@@ -910,12 +1143,23 @@ def analyse_case_folding(ctx, fi, loops, spec, seqp):
     rep.require(defs, f'find_kmers: haystack {hay} is never assigned')
     d0 = defs[0]
     v0 = def_value(d0)
-    ok0 = isinstance(v0, ast.Call) and (
-        (m.resolve_call(fi, v0) == 'gambit.seq.seq_to_bytes' and [u(a) for a in v0.args] == [seqp]) or
-        (callee_attr(v0) == 'upper' and isinstance(v0.func.value, ast.Call) and m.resolve_call(fi, v0.func.value) == 'gambit.seq.seq_to_bytes'
-         and [u(a) for a in v0.func.value.args] == [seqp]))
+
+    def is_bytes_of_input(e):
+        return isinstance(e, ast.Call) and m.resolve_call(fi, e) == 'gambit.seq.seq_to_bytes' and [u(a_) for a_ in e.args] == [seqp] and not e.keywords
+
+    def folding(e):
+        """(kind, operand, folder) when e upper-cases its operand: 'upper' for X.upper(), 'fold' for F(X) with F a function of the package"""
+        if isinstance(e, ast.Call) and isinstance(e.func, ast.Attribute) and e.func.attr == 'upper' and not e.args and not e.keywords:
+            return 'upper', e.func.value, None
+        if isinstance(e, ast.Call) and len(e.args) == 1 and not e.keywords and not isinstance(e.args[0], ast.Starred):
+            q = m.resolve_call(fi, e)
+            if q is not None and q != 'gambit.seq.seq_to_bytes' and m.has_func(q):
+                return 'fold', e.args[0], m.func(q)
+        return None
+    f0 = folding(v0) if v0 is not None else None
+    ok0 = is_bytes_of_input(v0) or (f0 is not None and is_bytes_of_input(f0[1]))
     rep.add('K6', fi.site(d0), 'the haystack is the byte form of the whole input sequence', ok0, expected=f'seq_to_bytes({seqp})', found=u(v0), stmt='haystack def')
-    uppers = [s for s in defs if isinstance(def_value(s), ast.Call) and callee_attr(def_value(s)) == 'upper' and not def_value(s).args]
+    uppers = [s for s in defs if def_value(s) is not None and folding(def_value(s)) is not None]
     others = [s for s in defs if s is not d0 and s not in uppers]
     rep.add('K6', fi.site(), 'the haystack is not otherwise rewritten', not others, expected='none', found=[u(s) for s in others], stmt='haystack writes')
     if not uppers:
@@ -925,68 +1169,38 @@ def analyse_case_folding(ctx, fi, loops, spec, seqp):
     up = uppers[-1]
     bp = block_path(fn, up)
     before = bp[0][1] < first_idx
-    upv = def_value(up)
-    src_ok = u(upv.func.value) == hay or (up is d0)
+    kind, operand, folder = folding(def_value(up))
+    src_ok = u(operand) == hay or (up is d0 and is_bytes_of_input(operand))
+    fold_ok, fold_why = (True, None) if kind == 'upper' else fold_summary(ctx, folder)
     if len(bp) == 1:
-        ok = before and src_ok
-        found = 'unconditional'
+        ok = before and src_ok and fold_ok
+        found = 'unconditional' if kind == 'upper' else fold_why
+        if not src_ok:
+            found = f'{found}; applied to {u(operand)}, not to the haystack'
     else:
-        # the condition under which the haystack is upper-cased must be implied by "some byte of the haystack is a lower-case
-        # nucleotide".  Recognised meanings: EXISTS x: x in A and x in B with {A, B} = {haystack, lower-case nucleotides}
-        # (a for/if/break scan, any(x in A for x in B) - in either nesting order), or a classified whole-string predicate.
+        # the condition under which the haystack is upper-cased must be implied by "some byte of the haystack is a lower-case nucleotide"
         owners = [o for (_, _, o) in bp[1:]]
         ok = False
         found = 'conditional'
-
-        def lower_container(cont, at):
-            cv = cont
-            if isinstance(cont, ast.Name):
-                d = reaching_def(fn, cont.id, at)
-                cv = def_value(d) if d not in (None, PARAM, AMBIGUOUS) else None
-            lower_of_nucs = isinstance(cv, ast.Call) and callee_attr(cv) == 'lower' and not cv.args and \
-                m.resolve(fi.module, cv.func.value) == 'gambit.seq.NUCLEOTIDES'
-            literal = isinstance(cv, ast.Constant) and isinstance(cv.value, bytes) and set(cv.value) >= set(b'acgt')
-            return lower_of_nucs or literal, cv
-
-        def exists_common(target, it, test, at):
-            """for <target> in <it>: <test>  read as  EXISTS x in it: x in C  -> (ok, description) or None when not of that form"""
-            if not (isinstance(target, ast.Name) and isinstance(test, ast.Compare) and len(test.ops) == 1 and isinstance(test.ops[0], ast.In)
-                    and u(test.left) == target.id):
-                return None
-            a, b = it, test.comparators[0]
-            for h, c in ((a, b), (b, a)):
-                if isinstance(h, ast.Name) and h.id == hay:
-                    okc, cv = lower_container(c, at)
-                    return okc, f'some element common to {hay} and {u(cv) if cv is not None else u(c)}'
-            return False, f'`{u(test)}` for {target.id} in {u(it)} does not look at the haystack'
-        if len(owners) == 2 and isinstance(owners[0], ast.For) and isinstance(owners[1], ast.If) and not owners[1].orelse and not owners[0].orelse:
-            r = exists_common(owners[0].target, owners[0].iter, owners[1].test, owners[0])
-            if r is not None:
-                ok, found = before and src_ok and r[0], f'guarded by a scan for {r[1]}'
+        if len(owners) == 2 and isinstance(owners[0], ast.For) and isinstance(owners[1], ast.If) and not owners[1].orelse and not owners[0].orelse \
+                and isinstance(owners[0].target, ast.Name):
+            # for x in A: if x in B: upper   ==   if any(x in B for x in A): upper
+            gen = ast.GeneratorExp(elt=owners[1].test, generators=[ast.comprehension(target=owners[0].target, iter=owners[0].iter, ifs=[], is_async=0)])
+            ver, why = lower_presence(m, fi, ast.Call(func=ast.Name(id='any', ctx=ast.Load()), args=[gen], keywords=[]), hay, owners[0])
+            if ver is not None:
+                ok, found = before and src_ok and fold_ok and ver, f'guarded by a scan for {why[7:] if why.startswith("any(): ") else why}'
         elif len(owners) == 1 and isinstance(owners[0], ast.If) and not owners[0].orelse:
-            t0 = owners[0].test
-            if isinstance(t0, ast.Call) and isinstance(t0.func, ast.Name) and t0.func.id in ('any', 'all') and len(t0.args) == 1 and not t0.keywords \
-                    and isinstance(t0.args[0], (ast.GeneratorExp, ast.ListComp)) and len(t0.args[0].generators) == 1 and not t0.args[0].generators[0].ifs \
-                    and not t0.args[0].generators[0].is_async:
-                g = t0.args[0].generators[0]
-                r = exists_common(g.target, g.iter, t0.args[0].elt, owners[0])
-                if r is not None and t0.func.id == 'any':
-                    ok, found = before and src_ok and r[0], f'guarded by any(): {r[1]}'
-                elif r is not None:
-                    ok, found = False, f'guarded by all(): true only when EVERY element qualifies ({r[1]}): mixed-case input is not folded'
-            else:
-                # classified single-test guards (closed table; anything else is outside the vocabulary)
-                t = u(t0).replace(' ', '')
-                sufficient = {f'not{hay}.isupper()', f'{hay}!={hay}.upper()', f'{hay}.upper()!={hay}', f'not({hay}=={hay}.upper())'}
-                insufficient = {f'{hay}.islower()': 'bytes.islower() is True only when ALL cased bytes are lower case: mixed-case (soft-masked) input is not folded',
-                                f'{hay}[0:1].islower()': 'looks at the first byte only', f'{hay}[:1].islower()': 'looks at the first byte only',
-                                f'{hay}.isalpha()': 'unrelated to case'}
-                if t in sufficient:
-                    ok, found = before and src_ok, f'guarded by `{u(t0)}` (true whenever any byte is lower case)'
-                elif t in insufficient:
-                    ok, found = False, f'guarded by `{u(t0)}`: {insufficient[t]}'
+            c, cpol = owners[0].test, True
+            ver, why = lower_presence(m, fi, c, hay, owners[0])
+            if ver is None:
+                c, cpol = _core(owners[0].test, True)
+                ver, why = lower_presence(m, fi, c, hay, owners[0])
+            if ver is not None:
+                ok, found = before and src_ok and fold_ok and ver and cpol, f'guarded by {why}' + ('' if cpol else ' - negated')
         if not ok and found == 'conditional':
             raise Undecided(f'find_kmers: upper() of the haystack is under an unrecognised condition ({"; ".join(u(getattr(o, "test", None) or getattr(o, "iter", None)) for o in owners)})')
+        if kind == 'fold' and not fold_ok:
+            found = f'{found}; {fold_why}'
     rep.add('K6', fi.site(up), 'the haystack is upper-cased whenever it contains a lower-case nucleotide, before either search', ok,
             expected='unconditional, or guarded by "some byte in NUCLEOTIDES.lower()"', found=found, stmt='upper')
 
@@ -1044,9 +1258,44 @@ def analyse_slices(ctx, loops):
     rep.functions.add(fk.qualname)
     pk, _ = enum_paths(fk, 'kmer_index')
     rep.require(not any(p.effects for p in pk), 'kmer_index: calls / loops executed for their effect are outside the evaluated vocabulary')
+    # self.kmer() inside the encoded value is replaced by what KmerMatch.kmer returns on each strand
+    kmer_q = 'gambit.kmers.KmerMatch.kmer'
+
+    def is_kmer_call(n):
+        return isinstance(n, ast.Call) and not n.args and not n.keywords and isinstance(n.func, ast.Attribute) and u(n.func.value) == 'self' \
+            and m.resolve_call(fk, n) == kmer_q
+    if any(p.value is not None and _has(p.value, is_kmer_call) for p in pk):
+        fkm = m.func(kmer_q)
+        rep.functions.add(fkm.qualname)
+        pkm, _ = enum_paths(fkm, 'KmerMatch.kmer')
+        rep.require(not any(p.effects for p in pkm), 'KmerMatch.kmer: calls / loops executed for their effect are outside the evaluated vocabulary')
+        arms = {}
+        for v, at, _g, r in return_values(pkm, 'KmerMatch.kmer'):
+            strand = 'reverse' if ('true', 'self.reverse') in at else 'forward' if ('false', 'self.reverse') in at else None
+            if strand is None and not any('self.reverse' in str(x) for a_ in at for x in a_):
+                rep.require(not arms, f'KmerMatch.kmer: returns are not one per strand: {u(r)}')
+                arms['forward'] = arms['reverse'] = v          # one value for both strands
+                continue
+            rep.require(strand is not None and strand not in arms, f'KmerMatch.kmer: returns are not one per strand (controlled by self.reverse): {u(r)}')
+            arms[strand] = v
+        rep.require(set(arms) == {'forward', 'reverse'}, 'KmerMatch.kmer: returns are not one per strand')
+
+        class InlineKmer(ast.NodeTransformer):
+            def visit_Call(s2, node):
+                s2.generic_visit(node)
+                if is_kmer_call(node):
+                    return ast.IfExp(test=ast.Attribute(value=ast.Name(id='self', ctx=ast.Load()), attr='reverse', ctx=ast.Load()),
+                                     body=copy.deepcopy(arms['reverse']), orelse=copy.deepcopy(arms['forward']))
+                return node
+        for p in pk:
+            if p.value is not None:
+                p.value = InlineKmer().visit(copy.deepcopy(p.value))
     disp = {}
     for v, at, _g, r in return_values(pk, 'kmer_index'):
         strand = 'reverse' if ('true', 'self.reverse') in at else 'forward' if ('false', 'self.reverse') in at else None
+        if strand is None and isinstance(v, ast.Call) and not disp and not any('self.reverse' in str(x) for a_ in at for x in a_) and 'self.reverse' not in u(v):
+            disp['forward'] = disp['reverse'] = (v, r)       # the strand is looked at nowhere: this value is the index on both strands
+            continue
         rep.require(strand is not None and isinstance(v, ast.Call), f'kmer_index: return not controlled by self.reverse: {u(r)}')
         rep.require(strand not in disp, f'kmer_index: two returns for the {strand} strand')
         disp[strand] = (v, r)
@@ -1056,16 +1305,37 @@ def analyse_slices(ctx, loops):
     # function on seq_to_bytes(x) is the same encoder on the same operand; without the conversion it is not (str / Seq input).
     cy = 'gambit._cython.kmers'
 
+    law_used = []
+
+    def unwrap_bytes(e):
+        """seq_to_bytes is the identity on bytes (K10): nested conversions are one conversion"""
+        n = 0
+        while isinstance(e, ast.Call) and m.resolve_call(fk, e) == 'gambit.seq.seq_to_bytes' and len(e.args) == 1 and not e.keywords:
+            e, n = e.args[0], n + 1
+        return e, n
+
     def effective(v):
         tgt = m.resolve_call(fk, v)
         av = v.args[0] if len(v.args) == 1 and not v.keywords else None
-        if tgt in (f'gambit.kmers.kmer_to_index', 'gambit.kmers.kmer_to_index_rc'):
-            return f'{cy}.{tgt.rsplit(".", 1)[1]}', av, tgt
-        if tgt in (f'{cy}.kmer_to_index', f'{cy}.kmer_to_index_rc'):
-            if isinstance(av, ast.Call) and m.resolve_call(fk, av) == 'gambit.seq.seq_to_bytes' and len(av.args) == 1 and not av.keywords:
-                return tgt, av.args[0], tgt
-            return tgt, None, f'{tgt} on {u(av)} (not converted by seq_to_bytes)'
-        return tgt, av, tgt
+        if tgt in ('gambit.kmers.kmer_to_index', 'gambit.kmers.kmer_to_index_rc'):
+            cyf, shown = f'{cy}.{tgt.rsplit(".", 1)[1]}', tgt
+            av = unwrap_bytes(av)[0] if av is not None else None
+        elif tgt in (f'{cy}.kmer_to_index', f'{cy}.kmer_to_index_rc'):
+            cyf, shown = tgt, tgt
+            av, n = unwrap_bytes(av) if av is not None else (None, 0)
+            if not n and not (isinstance(av, ast.Call) and m.resolve_call(fk, av) in ('gambit._cython.kmers.revcomp', 'gambit.seq.revcomp')):
+                return tgt, None, f'{tgt} on {u(av)} (not converted by seq_to_bytes)'
+        else:
+            return tgt, av, tgt
+        # encoder(revcomp(z)) is the other encoder on z: the reverse-complement law (rc digit of x == digit of complement(x), positions
+        # mirrored), established from the Cython kernels below when it is relied upon
+        if isinstance(av, ast.Call) and m.resolve_call(fk, av) in ('gambit._cython.kmers.revcomp', 'gambit.seq.revcomp') and len(av.args) == 1 and not av.keywords:
+            z, n = unwrap_bytes(av.args[0])
+            if n:           # the Cython revcomp needs bytes
+                other = {'kmer_to_index': 'kmer_to_index_rc', 'kmer_to_index_rc': 'kmer_to_index'}[cyf.rsplit('.', 1)[1]]
+                law_used.append(u(v))
+                return f'{cy}.{other}', z, f'{shown} o revcomp = {other}'
+        return cyf, av, shown
     for strand, wantf in (('forward', 'kmer_to_index'), ('reverse', 'kmer_to_index_rc')):
         v, r = disp[strand]
         tgt, av, shown = effective(v)
@@ -1076,26 +1346,54 @@ def analyse_slices(ctx, loops):
         rep.add('K4', fk.site(r), f'{strand}: the encoded bytes are self.seq[self.kmer_indices()]', ok, expected='self.seq[self.kmer_indices()]', found=u(av) if av is not None else u(v),
                 stmt=f'{strand}: operand')
     rep.account_returns('K4', fk, [disp[k][1] for k in disp], 'k-mer index')
+    if law_used:
+        check_rc_law(ctx)
     c07.check_bindings(ctx)
 
 
-# ------------------------------------------------------------------------------------------------ K5 / K9
-def analyse_accumulate(ctx):
+def check_rc_law(ctx):
+    """index_rc(x) == index(revcomp(x)), from the Cython kernels (C07-T1/T3/T5 tables and the digit cross-check T6): evaluated only when
+    kmer_index relies on it (an encoder applied to the reverse complement instead of the rc encoder applied to the slice)."""
     rep, m = ctx.rep, ctx.model
-    fi = m.func('gambit.sigs.calc.accumulate_kmers')
-    rep.functions.add(fi.qualname)
-    acc, spec, seq = fi.params()[:3]
-    fors = [s for s in fi.node.body if isinstance(s, ast.For)]
-    rep.require(len(fors) == 1, 'accumulate_kmers: expected one for loop')
-    loop = fors[0]
-    it = loop.iter
-    # the sequence searched: the parameter itself, or its byte form taken once up front - find_kmers searches seq_to_bytes(seq)
-    # and seq_to_bytes is the identity on bytes (K10), and a match only slices the sequence it carries before converting it
+    for rid, text in (('T1', 'C07-T1 encoder'), ('T2', 'C07-T2'), ('T3', 'C07-T3 rc encoder'), ('T5', 'C07-T5 complement'), ('T6', 'C07-T6 rc encoder = encoder o complement')):
+        if rid not in rep.rules:
+            rep.rule(rid, text + ' (premise of K4: encoder applied to revcomp(...))')
+    seqmod = m.module('gambit.seq')
+    nuc = m.const_value(seqmod, seqmod.assigns['NUCLEOTIDES'])
+    enc = c07.analyse_encoder(ctx, m.func('gambit._cython.kmers.c_kmer_to_index'), nuc, rc=False)
+    encrc = c07.analyse_encoder(ctx, m.func('gambit._cython.kmers.c_kmer_to_index_rc'), nuc, rc=True)
+    comp = c07.analyse_revcomp(ctx, m.func('gambit._cython.kmers.c_revcomp'))
+    fi_rc = m.func('gambit._cython.kmers.c_kmer_to_index_rc')
+    for ch in b'ACGTacgt':
+        c = comp.get(ch)
+        rep.add('T6', fi_rc.site(), f'rc digit of {chr(ch)!r} == forward digit of its complement (strand symmetry of the index)', ch in encrc and c in enc and encrc[ch] == enc[c],
+                expected=enc.get(c), found=encrc.get(ch), stmt=f'cross[{chr(ch)}]')
+
+
+# ------------------------------------------------------------------------------------------------ K5 / K9
+def _is_generator(g):
+    return isinstance(g.node, ast.FunctionDef) and any(isinstance(n, (ast.Yield, ast.YieldFrom)) for n in ast.walk(g.node))
+
+
+def _loop_source(fi, loop):
+    """the iterable of the loop with single-assignment locals defined before it substituted"""
     pre_env = {}
     for s_ in fi.node.body[:fi.node.body.index(loop)]:
         if isinstance(s_, ast.Assign) and len(s_.targets) == 1 and isinstance(s_.targets[0], ast.Name) and len(assigns_to(fi.node, s_.targets[0].id)) == 1:
             pre_env[s_.targets[0].id] = subst(s_.value, pre_env)
-    it2 = subst(it, pre_env)
+    return subst(loop.iter, pre_env)
+
+
+def _match_loop(ctx, fi, spec, seq, sink, acc):
+    """The loop find_kmers -> kmer_index -> skip ValueError -> sink, in function fi.  sink: 'add' (acc.add(index)) or 'yield' (yield index)."""
+    rep, m = ctx.rep, ctx.model
+    fname = fi.name
+    fors = [s for s in fi.node.body if isinstance(s, ast.For)]
+    rep.require(len(fors) == 1, f'{fname}: expected one for loop')
+    loop = fors[0]
+    # the sequence searched: the parameter itself, or its byte form taken once up front - find_kmers searches seq_to_bytes(seq)
+    # and seq_to_bytes is the identity on bytes (K10), and a match only slices the sequence it carries before converting it
+    it2 = _loop_source(fi, loop)
     a_ = [get_arg(it2, 0, 'kmerspec'), get_arg(it2, 1, 'seq')] if isinstance(it2, ast.Call) else [None, None]
     sq = a_[1]
     if isinstance(sq, ast.Call) and m.resolve_call(fi, sq) == 'gambit.seq.seq_to_bytes' and len(sq.args) == 1 and not sq.keywords:
@@ -1103,10 +1401,10 @@ def analyse_accumulate(ctx):
     ok = isinstance(it2, ast.Call) and m.resolve_call(fi, it2) == 'gambit.kmers.find_kmers' and a_[0] not in (None, Ellipsis) and u(a_[0]) == spec \
         and sq not in (None, Ellipsis) and u(sq) == seq and len(it2.args) + len(it2.keywords) == 2
     rep.add('K5', fi.site(loop), 'iterates every match of find_kmers(kmerspec, seq)', ok, expected=f'find_kmers({spec}, {seq})', found=u(it2), stmt=loop.iter)
-    rep.require(isinstance(loop.target, ast.Name), 'accumulate_kmers: loop target')
+    rep.require(isinstance(loop.target, ast.Name), f'{fname}: loop target')
     mv = loop.target.id
     tries = [s for s in loop.body if isinstance(s, ast.Try)]
-    rep.require(len(tries) == 1, 'accumulate_kmers: expected one try statement in the loop')
+    rep.require(len(tries) == 1, f'{fname}: expected one try statement in the loop')
     t = tries[0]
     idx_calls = [c for c in calls_in(ast.Module(body=t.body, type_ignores=[])) if callee_attr(c) == 'kmer_index']
     rep.add('K5', fi.site(t), 'the try body computes the index of the current match', len(idx_calls) == 1 and u(idx_calls[0].func.value) == mv,
@@ -1126,11 +1424,17 @@ def analyse_accumulate(ctx):
     for s in t.body:
         if isinstance(s, ast.Assign) and isinstance(s.targets[0], ast.Name) and any(x in idx_calls for x in ast.walk(s)):
             idx_name = s.targets[0].id
-    adds = [c for c in calls_in(loop) if callee_attr(c) == 'add' and u(c.func.value) == acc]
-    ok = len(adds) == 1 and idx_name is not None and [u(a) for a in adds[0].args] == [idx_name]
-    rep.add('K5', fi.site(adds[0] if adds else loop), 'every valid index is added to the accumulator it was given', ok, expected=f'{acc}.add({idx_name})',
+    if sink == 'add':
+        adds = [c for c in calls_in(loop) if callee_attr(c) == 'add' and u(c.func.value) == acc]
+        ok = len(adds) == 1 and idx_name is not None and [u(a) for a in adds[0].args] == [idx_name]
+        want_sink = f'{acc}.add({idx_name})'
+    else:
+        adds = [n for n in ast.walk(fi.node) if isinstance(n, (ast.Yield, ast.YieldFrom))]
+        ok = len(adds) == 1 and isinstance(adds[0], ast.Yield) and idx_name is not None and u(adds[0].value) == idx_name and any(x is adds[0] for x in ast.walk(loop))
+        want_sink = f'yield {idx_name}'
+    rep.add('K5', fi.site(adds[0] if adds else loop), 'every valid index is added to the accumulator it was given' if sink == 'add' else 'every valid index is yielded', ok, expected=want_sink,
             found=[u(c) for c in adds], stmt='add')
-    if adds:
+    if adds and any(x is adds[0] for s in stmts_in(loop.body) if isinstance(s, ast.Expr) for x in ast.walk(s)):
         st = next(s for s in stmts_in(loop.body) if any(x is adds[0] for x in ast.walk(s)) and isinstance(s, ast.Expr))
         bp = block_path(fi.node, st)
         owner_chain = [type(o).__name__ for (_, _, o) in bp[1:]]
@@ -1142,6 +1446,43 @@ def analyse_accumulate(ctx):
                 not other or all(any(x is adds[0] for x in ast.walk(s)) for s in other), expected='index computation only', found=[u(s) for s in other],
                 stmt='try extent')
 
+
+
+def analyse_accumulate(ctx):
+    """K5.  accumulate_kmers either runs the match loop itself (find_kmers -> kmer_index -> skip ValueError -> add) or consumes a
+    generator of the package that runs it and yields the valid indices; the same loop rule is evaluated where the loop is, with the
+    sink being `accumulator.add(index)` or `yield index`, and the consumer must add every produced index unconditionally."""
+    rep, m = ctx.rep, ctx.model
+    fi = m.func('gambit.sigs.calc.accumulate_kmers')
+    rep.functions.add(fi.qualname)
+    acc, spec, seq = fi.params()[:3]
+    fors = [s for s in fi.node.body if isinstance(s, ast.For)]
+    rep.require(len(fors) == 1, 'accumulate_kmers: expected one for loop')
+    loop = fors[0]
+    it2 = _loop_source(fi, loop)
+    tgt = m.resolve_call(fi, it2) if isinstance(it2, ast.Call) else None
+    if tgt is not None and tgt != 'gambit.kmers.find_kmers' and m.has_func(tgt) and _is_generator(m.func(tgt)):
+        g = m.func(tgt)
+        rep.functions.add(g.qualname)
+        gp = g.params()
+        a_ = [x for x in it2.args] if not it2.keywords and not any(isinstance(x, ast.Starred) for x in it2.args) else None
+        okc = a_ is not None and len(a_) == 2 and len(gp) == 2 and [u(x) for x in a_] == [spec, seq]
+        rep.add('K5', fi.site(loop), f'the index producer {g.name} is given the search parameters and the sequence', okc, expected=f'{g.name}({spec}, {seq})', found=u(it2),
+                stmt='producer call')
+        rep.require(len(gp) == 2, f'{g.qualname}: expected the parameters (kmerspec, seq)')
+        _match_loop(ctx, g, gp[0], gp[1], 'yield', None)
+        rep.account_returns('K5', g, [], 'match (the loop must see every occurrence: no return at all)')
+        # the consumer: every produced index is added, unconditionally, and nothing else happens to it
+        rep.require(isinstance(loop.target, ast.Name), 'accumulate_kmers: loop target')
+        body = [x for x in loop.body if not isinstance(x, ast.Pass)]
+        adds = [c for c in calls_in(loop) if callee_attr(c) == 'add' and u(c.func.value) == acc]
+        oka = len(adds) == 1 and [u(x) for x in adds[0].args] == [loop.target.id] and not adds[0].keywords
+        rep.add('K5', fi.site(adds[0] if adds else loop), 'every valid index is added to the accumulator it was given', oka, expected=f'{acc}.add({loop.target.id})',
+                found=[u(c) for c in adds], stmt='add')
+        okp = len(body) == 1 and isinstance(body[0], ast.Expr) and adds and body[0].value is adds[0] and not loop.orelse
+        rep.add('K5', fi.site(loop), 'the add is unconditional on the success path', okp, expected='loop body is the add', found=[u(x)[:60] for x in body], stmt='add placement')
+    else:
+        _match_loop(ctx, fi, spec, seq, 'add', acc)
     rep.account_returns('K5', fi, [], 'match (the loop must see every occurrence: no return at all)')
     analyse_calc_signature(ctx)
 
@@ -1431,8 +1772,46 @@ def analyse_dtype_table(ctx):
 
         def ev(self, e):
             if isinstance(e, ast.Name) and e.id not in self.env and e.id in self.module.assigns:
-                return self.const(self.module.assigns[e.id])
+                return type(self)({}, on_call=self.on_call).const(self.module.assigns[e.id])     # evaluated in module scope
+            if isinstance(e, ast.Constant) and isinstance(e.value, (str, bytes)):
+                return e.value
+            if isinstance(e, ast.JoinedStr):
+                out = ''
+                for part in e.values:
+                    if isinstance(part, ast.Constant) and isinstance(part.value, str):
+                        out += part.value
+                    elif isinstance(part, ast.FormattedValue) and part.conversion == -1 and part.format_spec is None:
+                        v = self.ev(part.value)
+                        if type(v) not in (int, str):
+                            raise Undecided(f'index_dtype: f-string field {u(part.value)} = {v!r}')
+                        out += str(v)
+                    else:
+                        raise Undecided(f'index_dtype: f-string {u(e)}')
+                return out
+            if isinstance(e, (ast.GeneratorExp, ast.ListComp)):
+                return tuple(self.comp(e.elt, list(e.generators)))
+            if isinstance(e, ast.Call) and isinstance(e.func, ast.Name) and e.func.id in ('tuple', 'list') and len(e.args) == 1 and not e.keywords \
+                    and e.func.id not in self.env:
+                v = self.ev(e.args[0])
+                if isinstance(v, (tuple, list, range)):
+                    return tuple(v)
+                raise Undecided(f'index_dtype: {u(e)} of a value that is not a concrete sequence')
             return super().ev(e)
+
+        def comp(self, elt, gens):
+            if not gens:
+                yield self.ev(elt)
+                return
+            g = gens[0]
+            seq = self.ev(g.iter)
+            if g.is_async or not isinstance(seq, (tuple, list, range)):
+                raise Undecided(f'index_dtype: comprehension over {u(g.iter)} (not a concrete sequence)')
+            saved = dict(self.env)
+            for item in seq:
+                self.unpack(g.target, item)
+                if all(self.truth(self.ev(c)) for c in g.ifs):
+                    yield from self.comp(elt, gens[1:])
+            self.env = saved
 
         def const(self, e):
             """literal value of a module-level constant: strings are kept as strings (Mini reads 1-character strings as C chars)"""
@@ -1440,7 +1819,7 @@ def analyse_dtype_table(ctx):
                 return e.value
             if isinstance(e, (ast.Tuple, ast.List)):
                 return tuple(self.const(x) for x in e.elts)
-            return super().ev(e)
+            return self.ev(e)
 
         def stmt(self, s):
             if isinstance(s, ast.For) and not s.orelse:
@@ -1481,7 +1860,7 @@ def analyse_dtype_table(ctx):
                 names = {'uint8': 'u1', 'uint16': 'u2', 'uint32': 'u4', 'uint64': 'u8'}
                 if e.args[0].attr in names and u(e.args[0].value) in ('np', 'numpy'):
                     return ('dtype', names[e.args[0].attr])
-            if np_dtype and len(e.args) == 1 and not e.keywords and isinstance(e.args[0], (ast.Call, ast.Name, ast.Subscript)):
+            if np_dtype and len(e.args) == 1 and not e.keywords and isinstance(e.args[0], (ast.Call, ast.Name, ast.Subscript, ast.JoinedStr, ast.BinOp)):
                 v = mini.ev(e.args[0])                      # np.dtype(<dtype>) is that dtype; np.dtype(<code string>)
                 if isinstance(v, tuple) and len(v) == 2 and v[0] == 'dtype':
                     return v
@@ -1556,11 +1935,50 @@ def check_seq_to_bytes(ctx):
     # check up front, one local assigned per branch and a single return).
     paths, _ = enum_paths(fs, 'seq_to_bytes')
 
-    def guard_on(t, tname):
-        """truth of guard t for an argument whose type is tname (None = any other type); None when undetermined"""
+    # exact-type dispatch tables: a module-level dict literal {type: converter}
+    def type_table(e):
+        if isinstance(e, ast.Name) and e.id in fs.module.assigns and isinstance(fs.module.assigns[e.id], ast.Dict) \
+                and all(isinstance(k_, (ast.Name, ast.Attribute)) for k_ in fs.module.assigns[e.id].keys):
+            d = fs.module.assigns[e.id]
+            return {u(k_): v_ for k_, v_ in zip(d.keys, d.values)}
+        return None
+
+    def is_type_of_arg(e):
+        return isinstance(e, ast.Call) and isinstance(e.func, ast.Name) and e.func.id == 'type' and len(e.args) == 1 and not e.keywords and u(e.args[0]) == sp
+
+    def lookup(e):
+        """e is D.get(type(seq)) / D.get(type(seq), None) / D[type(seq)] -> (table, strict) else None"""
+        if isinstance(e, ast.Call) and isinstance(e.func, ast.Attribute) and e.func.attr == 'get' and not e.keywords and e.args and is_type_of_arg(e.args[0]) \
+                and (len(e.args) == 1 or (len(e.args) == 2 and is_none(e.args[1]))):
+            tb = type_table(e.func.value)
+            return (tb, False) if tb is not None else None
+        if isinstance(e, ast.Subscript) and is_type_of_arg(e.slice):
+            tb = type_table(e.value)
+            return (tb, True) if tb is not None else None
+        return None
+
+    def guard_on(t, elem):
+        """truth of guard t for an argument of the domain element elem = (type name | None for any other type, exact type?);
+        None when undetermined"""
+        tname, exact = elem
         if isinstance(t, ast.UnaryOp) and isinstance(t.op, ast.Not):
-            v = guard_on(t.operand, tname)
+            v = guard_on(t.operand, elem)
             return None if v is None else not v
+        if isinstance(t, ast.Compare) and len(t.ops) == 1:
+            l, r, op = t.left, t.comparators[0], t.ops[0]
+            lk = lookup(l)
+            if lk is not None and not lk[1] and is_none(r) and isinstance(op, (ast.Is, ast.IsNot, ast.Eq, ast.NotEq)):
+                hit = exact and tname in lk[0]
+                return (not hit) if isinstance(op, (ast.Is, ast.Eq)) else hit
+            if is_type_of_arg(l) and isinstance(op, (ast.In, ast.NotIn)) and type_table(r) is not None:
+                hit = exact and tname in type_table(r)
+                return hit if isinstance(op, ast.In) else not hit
+            if is_type_of_arg(l) and isinstance(op, (ast.Is, ast.IsNot, ast.Eq, ast.NotEq)) and isinstance(r, (ast.Name, ast.Attribute)):
+                hit = exact and tname == u(r)
+                return hit if isinstance(op, (ast.Is, ast.Eq)) else not hit
+        lk = lookup(t)
+        if lk is not None and not lk[1]:
+            return exact and tname in lk[0]          # converters are functions / types: truthy
         if isinstance(t, ast.Call) and u(t.func) == 'isinstance' and len(t.args) == 2 and not t.keywords and u(t.args[0]) == sp:
             c = t.args[1]
             if isinstance(c, ast.Name) and (m.resolve(fs.module, c) == 'gambit.seq.SEQ_TYPES' or (fs.module is seqmod and c.id == 'SEQ_TYPES')):
@@ -1574,33 +1992,74 @@ def check_seq_to_bytes(ctx):
             return tname in names
         return None
 
-    def paths_for(tname):
+    def paths_for(elem):
         out = []
         for p in paths:
-            if all(guard_on(t, tname) in (None, pol) for (t, pol) in p.guards):
+            if all(guard_on(t, elem) in (None, pol) for (t, pol) in p.guards):
                 out.append(p)
         return out
+
+    def resolve_value(v, elem):
+        """the returned expression for this domain element: a converter looked up in an exact-type table is replaced by the
+        table's entry, and a call of a one-expression function / lambda of the module by that expression"""
+        tname, exact = elem
+
+        class Look(ast.NodeTransformer):
+            def visit(s2, node):
+                lk = lookup(node) if isinstance(node, (ast.Call, ast.Subscript)) else None
+                if lk is not None:
+                    return copy.deepcopy(lk[0][tname]) if exact and tname in lk[0] else ast.Constant(value=None)
+                return s2.generic_visit(node)
+
+        class Inline(ast.NodeTransformer):
+            def visit_Call(s2, node):
+                node = s2.generic_visit(node)
+                f = node.func
+                body = params = None
+                if isinstance(f, ast.Lambda) and not (f.args.vararg or f.args.kwarg or f.args.kwonlyargs or f.args.defaults):
+                    body, params = f.body, [a.arg for a in f.args.posonlyargs + f.args.args]
+                elif isinstance(f, ast.Name):
+                    q = m.resolve(fs.module, f)
+                    if q is not None and m.has_func(q):
+                        g = m.func(q)
+                        gb = [x for x in g.node.body if not (isinstance(x, ast.Expr) and isinstance(x.value, ast.Constant))]
+                        a = g.node.args
+                        if isinstance(g.node, ast.FunctionDef) and len(gb) == 1 and isinstance(gb[0], ast.Return) and gb[0].value is not None \
+                                and not g.node.decorator_list and not (a.vararg or a.kwarg or a.kwonlyargs or a.defaults) and g.module is fs.module:
+                            body, params = gb[0].value, g.params()
+                if body is not None and not node.keywords and len(node.args) == len(params) and not any(isinstance(x, ast.Starred) for x in node.args):
+                    return subst(body, dict(zip(params, node.args)))
+                return node
+        return Inline().visit(Look().visit(copy.deepcopy(v)))
     want_conv = {'bytes': [sp], 'bytearray': [sp], 'str': [f"{sp}.encode('ascii')", f'{sp}.encode("ascii")', f"{sp}.encode()"], 'Seq': [f'bytes({sp})']}
     accounted = []
     for mname in members:
-        ps = paths_for(mname)
-        vals, bad = [], []
-        for p in ps:
-            if p.kind != 'return' or p.value is None:
-                bad.append(f'{p.kind}: {u(p.stmt)[:50] if p.stmt is not None else "falls off the end"}')
-                continue
-            for v, _at, _g in lift(p.value, p.atoms, p.guards):
-                if not all(guard_on(t, mname) in (None, pol) for (t, pol) in _g):
-                    continue        # an arm of a conditional expression this type cannot take
-                vals.append(u(v))
-                if mname in want_conv and u(v) not in want_conv[mname]:
-                    bad.append(u(v))
-                else:
-                    accounted.append(p.stmt)
+        vals, bad, ps = [], [], []
+        # an argument whose type is exactly the member, and one of a proper subclass (an exact-type table misses it, isinstance does not)
+        for elem in ((mname, True), (mname, False)):
+            eps = paths_for(elem)
+            ps += eps
+            if not eps:
+                bad.append('no path' + ('' if elem[1] else ' for a subclass instance'))
+            for p in eps:
+                if p.kind != 'return' or p.value is None:
+                    bad.append(f'{p.kind}: {u(p.stmt)[:50] if p.stmt is not None else "falls off the end"}' + ('' if elem[1] else ' (subclass instance)'))
+                    continue
+                for v, _at, _g in lift(p.value, p.atoms, p.guards):
+                    if not all(guard_on(t, elem) in (None, pol) for (t, pol) in _g):
+                        continue        # an arm of a conditional expression this type cannot take
+                    v = resolve_value(v, elem)
+                    if u(v) not in vals:
+                        vals.append(u(v))
+                    if mname in want_conv and u(v) not in want_conv[mname]:
+                        if u(v) not in bad:
+                            bad.append(u(v))
+                    else:
+                        accounted.append(p.stmt)
         r = next((p.stmt for p in ps if p.kind == 'return'), None)
         rep.add('K10', fs.site(r) if r is not None else fs.site(), f'seq_to_bytes converts {mname} to its byte content', bool(ps) and bool(vals) and not bad,
                 expected=want_conv.get(mname, 'a return'), found=(bad or vals or None) if len(bad or vals) != 1 else (bad or vals)[0], stmt=f'seq_to_bytes[{mname}]')
-    others = paths_for(None)
+    others = paths_for((None, True))
     bad_other = [f'{p.kind} {u(p.value)[:40] if p.value is not None else ""}' for p in others if not (p.kind == 'raise' and isinstance(p.stmt, ast.Raise) and raised_name(p.stmt) == 'TypeError')]
     # a return no member type can reach, or reached only under an undetermined guard, is a shortcut the table above does not account for
     rep.account_returns('K10', fs, [r for r in accounted if r is not None], 'byte form')
@@ -1661,6 +2120,24 @@ _KIH = "def _kmer_index(kmer, reverse):\n\tkmer_bytes = seq_to_bytes(kmer)\n\tif
 _TBL = ("\tprefix = kmerspec.prefix\n\tk = kmerspec.k\n\tsearches = (\n\t\t(prefix, 0, -k, 0, False),\n\t\t(revcomp(prefix), k, None, kmerspec.prefix_len - 1, True),\n\t)\n\n"
         "\tfor needle, start, end, offset, reverse in searches:\n\t\tloc = haystack.find(needle, start, end)\n\n\t\twhile loc >= 0:\n\t\t\tyield KmerMatch(kmerspec, seq, loc + offset, reverse)\n"
         "\t\t\tloc = haystack.find(needle, loc + 1, end)\n")
+_FOLDH = ("_LOWER_RE = re.compile(b'[' + NUCLEOTIDES.lower() + b']')\n\n\ndef fold_case(data):\n\tif _LOWER_RE.search(data) is None:\n\t\treturn data\n\treturn data.upper()\n\n\n")
+
+
+def _FOLD_EDITS(helper):
+    return [(_K, _FOLD, ""), (_K, "from gambit.seq import NUCLEOTIDES, DNASeq, seq_to_bytes,", "from gambit.seq import NUCLEOTIDES, DNASeq, seq_to_bytes, fold_case,"),
+            (_SQ, "from pathlib import Path\n", "import re\nfrom pathlib import Path\n"), (_SQ, "def validate_dna_seq_bytes(seq: DNASeqBytes):", helper + "def validate_dna_seq_bytes(seq: DNASeqBytes):")]
+
+
+_GEN_ROWS = "def _searches(spec):\n\tyield spec.prefix, 0, -spec.k, False\n\tyield revcomp(spec.prefix), spec.k, None, True\n\n\n"
+_GEN_LOOP = ("\tfor needle, first, end, reverse in _searches(kmerspec):\n\t\tloc = haystack.find(needle, first, end)\n\n\t\twhile loc >= 0:\n"
+             "\t\t\tyield KmerMatch(kmerspec, seq, loc + kmerspec.prefix_len - 1 if reverse else loc, reverse)\n\t\t\tloc = haystack.find(needle, loc + 1, end)\n")
+_ACC = "\tfor match in find_kmers(kmerspec, seq):\n\t\ttry:\n\t\t\tindex = match.kmer_index()\n\t\texcept ValueError:\n\t\t\tcontinue\n\t\taccumulator.add(index)\n"
+_KEOF = "\t\tyield KmerMatch(kmerspec, seq, loc + kmerspec.prefix_len - 1, True)\n\n\t\tstart = loc + 1\n"
+_PROD = ("\n\ndef iter_indices(kmerspec, seq):\n\tdata = seq_to_bytes(seq)\n\n\tfor match in find_kmers(kmerspec, data):\n\t\ttry:\n\t\t\tindex = match.kmer_index()\n"
+         "\t\texcept ValueError:\n\t\t\tcontinue\n\n\t\tyield index\n")
+_S2B_TBL = ("def _as_is(seq):\n\treturn seq\n\n\ndef _encode_ascii(seq):\n\treturn seq.encode('ascii')\n\n\n"
+            "_CONVERTERS = {\n\tbytes: _as_is,\n\tbytearray: _as_is,\n\tstr: _encode_ascii,\n\tSeq: bytes,\n}\n\n\n")
+_S2B_TBL_USE = "\tconvert = _CONVERTERS.get(type(seq))\n\tif convert is not None:\n\t\treturn convert(seq)\n\n"
 VARIANTS = [
     V('forward restart after the whole prefix (overlaps missed)', 'B', _K, "\t\tyield KmerMatch(kmerspec, seq, loc, False)\n\n\t\tstart = loc + 1",
       "\t\tyield KmerMatch(kmerspec, seq, loc, False)\n\n\t\tstart = loc + kmerspec.prefix_len", 'K1'),
@@ -1775,6 +2252,49 @@ VARIANTS = [
     V('dense array size local one cell short', 'B', _C, "\t\tself.array = np.zeros(nkmers(k), dtype=bool)\n", "\t\tsize = nkmers(k) - 1\n\t\tself.array = np.zeros(size, dtype=bool)\n", 'K7'),
     V('set element local is the index shifted by one', 'B', _C, "\t\tself.set.add(self._dtype.type(index))\n", "\t\tvalue = self._dtype.type(index + 1)\n\t\tself.set.add(value)\n", 'K7'),
     V('dense add also clears the neighbouring cell', 'B', _C, "\t\tself.array[i] = True\n\n\tdef discard", "\t\tself.array[i] = True\n\t\tself.array[i - 1] = False\n\n\tdef discard", 'K7'),
+    # ---- third round: helpers in other modules, library calls, decorators, lookup tables
+    V('E: case folding in a helper of gambit.seq using a compiled character class', 'E', _K, "\thaystack = seq_to_bytes(seq)\n", "\thaystack = fold_case(seq_to_bytes(seq))\n", also=_FOLD_EDITS(_FOLDH)),
+    V('case folding helper searches for the upper-case class', 'B', _K, "\thaystack = seq_to_bytes(seq)\n", "\thaystack = fold_case(seq_to_bytes(seq))\n", 'K6',
+      also=_FOLD_EDITS(_FOLDH.replace("NUCLEOTIDES.lower()", "NUCLEOTIDES"))),
+    V('case folding helper uses match(): only the first byte is looked at', 'B', _K, "\thaystack = seq_to_bytes(seq)\n", "\thaystack = fold_case(seq_to_bytes(seq))\n", 'K6',
+      also=_FOLD_EDITS(_FOLDH.replace("_LOWER_RE.search(data)", "_LOWER_RE.match(data)"))),
+    V('case folding helper inverted: upper() when nothing is lower case', 'B', _K, "\thaystack = seq_to_bytes(seq)\n", "\thaystack = fold_case(seq_to_bytes(seq))\n", 'K6',
+      also=_FOLD_EDITS(_FOLDH.replace("is None:", "is not None:"))),
+    V('case folding helper applied to the prefix instead of the sequence', 'B', _K, "\thaystack = seq_to_bytes(seq)\n", "\thaystack = seq_to_bytes(seq)\n\thaystack = fold_case(kmerspec.prefix)\n", 'K6',
+      also=_FOLD_EDITS(_FOLDH)),
+    V('E: one search loop over rows produced lazily by a generator', 'E', _K, _FWD, "", also=[(_K, "\t# Find reverse\n\tprefix_rc = revcomp(kmerspec.prefix)\n" + _REV, _GEN_LOOP),
+      (_K, "def find_kmers(kmerspec: KmerSpec, seq: 'DNASeq') -> Iterator[KmerMatch]:", _GEN_ROWS + "def find_kmers(kmerspec: KmerSpec, seq: 'DNASeq') -> Iterator[KmerMatch]:")]),
+    V('row generator: reverse search starts at 0', 'B', _K, _FWD, "", 'K1', also=[(_K, "\t# Find reverse\n\tprefix_rc = revcomp(kmerspec.prefix)\n" + _REV, _GEN_LOOP),
+      (_K, "def find_kmers(kmerspec: KmerSpec, seq: 'DNASeq') -> Iterator[KmerMatch]:", _GEN_ROWS.replace("spec.k, None, True", "0, None, True") + "def find_kmers(kmerspec: KmerSpec, seq: 'DNASeq') -> Iterator[KmerMatch]:")]),
+    V('row generator: position offset applied on the forward strand instead', 'B', _K, _FWD, "", 'K1', also=[(_K, "\t# Find reverse\n\tprefix_rc = revcomp(kmerspec.prefix)\n" + _REV, _GEN_LOOP.replace("if reverse else loc", "if not reverse else loc")),
+      (_K, "def find_kmers(kmerspec: KmerSpec, seq: 'DNASeq') -> Iterator[KmerMatch]:", _GEN_ROWS + "def find_kmers(kmerspec: KmerSpec, seq: 'DNASeq') -> Iterator[KmerMatch]:")]),
+    V('search loop condition constantly false (the search never runs)', 'B', _K, "\tstart = 0\n\n\twhile True:", "\tstart = 0\n\n\twhile not True:", 'K1'),
+    V('find() called with needle and start swapped', 'B', _K, "haystack.find(kmerspec.prefix, start, -kmerspec.k)", "haystack.find(start, kmerspec.prefix, -kmerspec.k)", 'K1'),
+    V('find() called on the needle with the haystack as argument', 'B', _K, "haystack.find(prefix_rc, start)", "prefix_rc.find(haystack, start)", 'K1'),
+    V('E: match -> index -> skip moved into a generator of gambit.kmers, accumulate_kmers adds what it yields', 'E', _C, _ACC, "\tfor index in iter_indices(kmerspec, seq):\n\t\taccumulator.add(index)\n",
+      also=[(_C, "from gambit.kmers import KmerSpec, find_kmers,", "from gambit.kmers import KmerSpec, find_kmers, iter_indices,"), (_K, _KEOF, _KEOF + _PROD)]),
+    V('index generator stops at the first invalid k-mer', 'B', _C, _ACC, "\tfor index in iter_indices(kmerspec, seq):\n\t\taccumulator.add(index)\n", 'K5',
+      also=[(_C, "from gambit.kmers import KmerSpec, find_kmers,", "from gambit.kmers import KmerSpec, find_kmers, iter_indices,"), (_K, _KEOF, _KEOF + _PROD.replace("\t\t\tcontinue\n", "\t\t\tbreak\n"))]),
+    V('consumer of the index generator drops index 0 (truthiness test)', 'B', _C, _ACC, "\tfor index in iter_indices(kmerspec, seq):\n\t\tif index:\n\t\t\taccumulator.add(index)\n", 'K5',
+      also=[(_C, "from gambit.kmers import KmerSpec, find_kmers,", "from gambit.kmers import KmerSpec, find_kmers, iter_indices,"), (_K, _KEOF, _KEOF + _PROD)]),
+    V('index generator yields the match position instead of the index', 'B', _C, _ACC, "\tfor index in iter_indices(kmerspec, seq):\n\t\taccumulator.add(index)\n", 'K5',
+      also=[(_C, "from gambit.kmers import KmerSpec, find_kmers,", "from gambit.kmers import KmerSpec, find_kmers, iter_indices,"), (_K, _KEOF, _KEOF + _PROD.replace("\t\tyield index\n", "\t\tyield match.pos\n"))]),
+    V('E: dtype table computed at import by a generator expression with f-string codes', 'E', _K, _DT, "\tfor max_k, dtype in _DT_TABLE:\n\t\tif k <= max_k:\n\t\t\treturn dtype\n\n\treturn None\n",
+      also=[(_K, "def index_dtype(k: int)", "_DT_TABLE = tuple((4 * nbytes, np.dtype(f'u{nbytes}')) for nbytes in (1, 2, 4, 8))\n\n\ndef index_dtype(k: int)")]),
+    V('computed dtype table: two nucleotides per byte', 'B', _K, _DT, "\tfor max_k, dtype in _DT_TABLE:\n\t\tif k <= max_k:\n\t\t\treturn dtype\n\n\treturn None\n", 'K8',
+      also=[(_K, "def index_dtype(k: int)", "_DT_TABLE = tuple((2 * nbytes, np.dtype(f'u{nbytes}')) for nbytes in (1, 2, 4, 8))\n\n\ndef index_dtype(k: int)")]),
+    V('computed dtype table: signed types', 'B', _K, _DT, "\tfor max_k, dtype in _DT_TABLE:\n\t\tif k <= max_k:\n\t\t\treturn dtype\n\n\treturn None\n", 'K8',
+      also=[(_K, "def index_dtype(k: int)", "_DT_TABLE = tuple((4 * nbytes, np.dtype(f'i{nbytes}')) for nbytes in (1, 2, 4, 8))\n\n\ndef index_dtype(k: int)")]),
+    V('E: kmer_index encodes what kmer() returns (reverse-complement law)', 'E', _K, _KI, "\t\treturn kmer_to_index(self.kmer())"),
+    V('kmer_index applies the rc encoder to what kmer() returns (complemented twice)', 'B', _K, _KI, "\t\treturn kmer_to_index_rc(self.kmer())", 'K4'),
+    V('kmer_index encodes kmer() while kmer() no longer reverse-complements', 'B', _K, _KI, "\t\treturn kmer_to_index(self.kmer())", 'K4',
+      also=[(_K, "\t\treturn revcomp(kmer) if self.reverse else kmer", "\t\treturn kmer")]),
+    V('E: seq_to_bytes looks the exact type up in a converter table first', 'E', _SQ, _S2B, _S2B_TBL_USE + _S2B, also=[(_SQ, "def seq_to_bytes(seq: 'DNASeq')", _S2B_TBL + "def seq_to_bytes(seq: 'DNASeq')")]),
+    V('converter table maps str to bytes()', 'B', _SQ, _S2B, _S2B_TBL_USE + _S2B, 'K10', also=[(_SQ, "def seq_to_bytes(seq: 'DNASeq')", _S2B_TBL.replace("str: _encode_ascii", "str: bytes") + "def seq_to_bytes(seq: 'DNASeq')")]),
+    V('converter table only: instances of subclasses are rejected', 'B', _SQ, _S2B, _S2B_TBL_USE + "\traise TypeError(f'Expected sequence type, got {type(seq)}')\n", 'K10',
+      also=[(_SQ, "def seq_to_bytes(seq: 'DNASeq')", _S2B_TBL + "def seq_to_bytes(seq: 'DNASeq')")]),
+    V('converter table lower-cases str on the way', 'B', _SQ, _S2B, _S2B_TBL_USE + _S2B, 'K10',
+      also=[(_SQ, "def seq_to_bytes(seq: 'DNASeq')", _S2B_TBL.replace("return seq.encode('ascii')", "return seq.lower().encode('ascii')") + "def seq_to_bytes(seq: 'DNASeq')")]),
     # ---- generalised forms (each accepted idiom with its broken twin)
     # K1: the search as a trace - rotated loop (priming find, hit test as loop condition)
     V('E: forward search as priming find + while loc >= 0', 'E', _K, _FWD, _FWD_ROT),
